@@ -7,6 +7,7 @@
 //                                              The part after '#' (the std::hash word the model was given) is ignored here:
 //                                              the driver computes std::hash itself and reports it under LH.
 //   tuple     T(v,v,...)     pair  P(v,v)     variant  V<k>(v)     unique_ptr/shared_ptr  U(v)     tuple_operators type  O(v,...)
+//   Z         a variant that is valueless_by_exception() (only for variants with the alternative K, whose constructor can throw)
 // Cases:
 //   leaf l;l;...            -> LH h,h,...                       std::hash of each leaf (used to instantiate the model's h)
 //   p TYPE x y              -> H hx hy EQ e OPS <,<=,>,>=,==,!= LH ...   hash words, ==, the six operators, leaf hashes of x then y
@@ -31,6 +32,7 @@
 
 #include <cstdint>
 #include <memory>
+#include <stdexcept>
 #include <tuple>
 #include <utility>
 #include <variant>
@@ -65,6 +67,26 @@ struct N : nl::tuple_operators<N>   // integers of several widths, bool, float
     signed char c; unsigned u; long long l; bool b; float f;
     N(signed char c, unsigned u, long long l, bool b, float f) : c(c), u(u), l(l), b(b), f(f) {}
     auto as_tuple() { return std::tie(c, u, l, b, f); }
+};
+
+// an alternative whose construction can fail after the variant has destroyed its old value: not trivially copyable,
+// constructor may throw -> libstdc++ leaves the variant valueless_by_exception()
+struct K : nl::tuple_operators<K>
+{
+    int k;
+    struct boom {};
+    explicit K(int k) : k(k) {}
+    K(int k, boom) : k(k) { throw std::runtime_error("K: construction failed"); }
+    K(const K& o) : nl::hashable(), nl::tuple_operators<K>(), k(o.k) {}
+    K& operator=(const K& o) { k = o.k; return *this; }
+    auto as_tuple() { return std::tie(k); }
+};
+using VT = std::variant<int, std::string, K>;
+struct OV : nl::tuple_operators<OV>
+{
+    VT v; int i;
+    OV(VT v, int i) : v(std::move(v)), i(i) {}
+    auto as_tuple() { return std::tie(v, i); }
 };
 
 // ------------------------------------------------------------------ parsing a value of a given type
@@ -183,10 +205,28 @@ template <typename V, std::size_t I> struct ParseAlt
         }
     }
 };
+template <> struct Parse<K>
+{
+    static K get(Cur& c) { c.eat("O("); int k = Parse<int>::get(c); c.eat(')'); return K(k); }
+};
+template <typename V> bool make_valueless(V&) { return false; }
+inline bool make_valueless(VT& v)
+{
+    try { v.template emplace<2>(0, K::boom{}); }
+    catch (const std::runtime_error&) {}
+    return v.valueless_by_exception();
+}
 template <typename... Ts> struct Parse<std::variant<Ts...>>
 {
     static std::variant<Ts...> get(Cur& c)
     {
+        if (c.ok && c.i < c.s.size() && c.s[c.i] == 'Z')
+        {
+            c.i++;
+            std::variant<Ts...> r;
+            if (!make_valueless(r)) c.ok = false;
+            return r;
+        }
         c.eat('V');
         std::size_t k = 0;
         bool digits = false;
@@ -239,6 +279,17 @@ template <> struct Parse<R>
         auto t = Parse<std::tuple<int, int>>::get(c);
         c.eat(')');
         return R(pr, v, t);
+    }
+};
+template <> struct Parse<OV>
+{
+    static OV get(Cur& c)
+    {
+        c.eat("O(");
+        auto v = Parse<VT>::get(c); c.eat(',');
+        int i = Parse<int>::get(c);
+        c.eat(')');
+        return OV(std::move(v), i);
     }
 };
 template <> struct Parse<E>
@@ -448,6 +499,9 @@ using UP = std::unique_ptr<P>;
 using SQ = std::shared_ptr<Q>;
 using TU = std::tuple<std::unique_ptr<int>, std::shared_ptr<std::string>>;
 using PV = std::pair<std::unique_ptr<V3>, int>;
+using TV = std::tuple<int, VT>;
+using PVT = std::pair<VT, int>;
+using UV = std::unique_ptr<VT>;
 
 static std::string run_case(const std::vector<std::string>& w)
 {
@@ -493,6 +547,7 @@ static std::string run_case(const std::vector<std::string>& w)
     TY("T3", T3) TY("T0", T0) TY("T1", T1) TY("TI2", TI2) TY("TN", TN)
     TY("PR", PR) TY("PI2", PI2) TY("PRN", PRN) TY("V3", V3)
     TY("UP", UP) TY("SQ", SQ) TY("TU", TU) TY("PV", PV)
+    TY("VT", VT) TY("TV", TV) TY("PVT", PVT) TY("OV", OV) TY("UV", UV)
 #undef TY
     return "BADCASE";
 }
